@@ -14,6 +14,6 @@ CONSTANTS
   Fix = {"repin_sole"}
   Mut = {}
   Loop = {}
-INVARIANTS TypeOK C16 EpochBound C13
-PROPERTIES Mono
+INVARIANTS TypeOK C16 EpochBound C13 AbsEpochBound AbsFrozenPinned
+PROPERTIES Mono RefinesAbs
 CHECK_DEADLOCK FALSE
